@@ -11,7 +11,7 @@ def run(prop, tier, seed, replay):
     st = common.front(v, prop)
     res = common.correspondence(v, st, prop, "c16", "cdelta", tier, seed, replay, canary_kind="cdelta",
                                 model_desc="Model/Delta.v", impl_desc="CopiaSync::delta / AsyncCopiaSync::delta")
-    common.verdict(v, st, prop, res)
+    common.verdict(v, st, prop, res, with_previous=True)   # the sync engine object is shared by consecutive cases
     common.proof_coverage(v, st, prop, TB)
     v.coverage.update(dict(
         evaluations=res["evals"], distinct_nontrivial=res["distinct"],
